@@ -30,6 +30,7 @@ class Ctx:
         self.folder = Folder(self.prog)
         from . import terms as _terms
         _terms.SIGS = self.prog.signatures()  # keyword arguments of package callables are rendered positionally
+        _terms.SIGS.setdefault("open", ("file", "mode", "buffering", "encoding", "errors", "newline"))
         self.obs = []
         self.notes = []
         self.analysed = {}  # rule -> free-form facts about what was analysed
